@@ -567,3 +567,65 @@ SCENARIOS.append(Scenario("C06.pattern.match[any number of checks]", s_pattern_m
                            (BREL, "MatchResult.bind"), (BREL, "MatchResult.fail"), (BREL, "MatchContext.__init__")],
                           trusted=["check functions answer in one of the documented ways: True / False / None / a falsy MatchResult / raise MatchFailureError"],
                           assumptions=["three loop invariants, each at one arbitrary (Skolem) position; termination not proved"]))
+
+
+# ------------------------------------------------------------------ commute(): a variable used twice stays one variable ---
+
+PREL = "onnxscript/rewriter/_pattern_ir.py"
+ANON_TWICE = '''
+import sys
+import onnx_ir as ir
+from onnxscript.rewriter import pattern as orp, _pattern_ir as P
+def build(swapped, same):
+    a, b, c = (ir.Value(name=n, type=ir.TensorType(ir.DataType.FLOAT), shape=ir.Shape([2])) for n in "abc")
+    s = ir.node("Sub", [a, a if same else b])
+    add = ir.node("Add", [c, s.outputs[0]] if swapped else [s.outputs[0], c]); add.outputs[0].name = "y"
+    g = ir.Graph([a, b, c], [add.outputs[0]], nodes=[s, add], opset_imports={"": 18}, name="g")
+    return ir.Model(g, ir_version=9)
+bad = 0
+for kind in ("anonymous Var", "named Var", "anonymous ValuePattern with a check"):
+    for commute in (False, True):
+        for swapped in (False, True):
+            for same in (False, True):
+                v = P.Var(None) if kind == "anonymous Var" else (P.Var("v") if kind == "named Var" else P.ValuePattern(None, check=lambda context, value: True))
+                def pat(op, x):
+                    return op.Add(op.Sub(v, v), x)
+                def rep(op, x, **_): return op.Identity(x)
+                n = orp.RewriteRuleSet([orp.RewriteRule(pat, rep)], commute=commute).apply_to_model(build(swapped, same))
+                want = 1 if same and (commute or not swapped) else 0
+                if n != want:
+                    print(f"pattern Add(Sub(v, v), x) with v an {kind}, commute={commute}, against Add({'c, Sub' if swapped else 'Sub'}(a, {'a' if same else 'b'}){'' if swapped else ', c'}): applied {n} time(s), expected {want}")
+                    bad += 1
+sys.exit(1 if bad else 0)
+'''
+
+
+def s_commute_repeated_variable(_ctx):
+    """commute() clones the pattern; a value pattern that occurs TWICE in the pattern (a repeated variable) must stay ONE value pattern in every
+    clone — also an unnamed one, which is bound by identity — so that 'a variable used twice binds one value' holds for the commuted variants."""
+    import subprocess
+    import sys
+    import tempfile
+    from contracts.c17_opsets import Agg
+    from onnxscript.rewriter import _pattern_ir as P
+    agg = Agg()
+    for kind, mk in (("Var(None)", lambda: P.Var(None)), ("Var('v')", lambda: P.Var("v")), ("ValuePattern(None, check=f)", lambda: P.ValuePattern(None, check=lambda c, v: True))):
+        v = mk()
+        node = P.NodePattern("", "Sub", [v, v], {}, ["o"], allow_other_attributes=True, allow_other_inputs=False)
+        copy = node.clone({}, False)
+        same = copy.inputs[0] is copy.inputs[1]
+        by_name = copy.inputs[0].name is not None and copy.inputs[0].name == copy.inputs[1].name
+        agg.ob("C06.pattern_ir.clone.a_value_pattern_used_twice_is_one_value_pattern_in_the_clone", same or by_name,
+               f"{kind}: the two inputs of the clone are {'the same object' if same else 'different objects'}" + ("" if same or by_name else " and have no name to be bound by"),
+               CL_BIND, case=kind)
+        agg.ob("C06.pattern_ir.clone.keeps_check_and_optionality", copy.inputs[0].check_method is v.check_method and copy.inputs[0].can_match_none == v.can_match_none,
+               kind, CL_BIND, case=kind)
+    with tempfile.NamedTemporaryFile("w", suffix=".py", delete=False) as f:
+        f.write(ANON_TWICE)
+    p = subprocess.run([sys.executable, f.name], capture_output=True, text=True, timeout=600)
+    agg.ob("C06.matcher.commute.a_variable_used_twice_binds_one_value_in_every_commuted_variant", p.returncode == 0, (p.stdout + p.stderr)[-600:], CL_BIND)
+    return {"obligations": agg.obs, "paths": 4, "covered": ["repeated_variable_kinds=3"], "notes": [], "functions": []}
+
+
+SCENARIOS.append(Scenario("C06.pattern_ir.commute.repeated_variable", s_commute_repeated_variable,
+                          [(PREL, "Var.clone"), (PREL, "ValuePattern.clone"), (PREL, "NodePattern.clone"), (PREL, "GraphPattern.commute")], kind="evaluation"))
